@@ -171,7 +171,8 @@ def plan_conv(pid, tier, seed):
                "with FixToFloatBits / FloatToFixR (round to nearest even on exact integers).",
         "C10": "every value of every 8-bit layout; lattice + random values of 88 wider layouts: encode, encoded_size, max_encoded_len, "
                "decode of exact / every short prefix / long input, to/from le/be/ne bytes, to/from bits, integer encoding, serde JSON "
-               "struct and sequence forms, Wrapping<F> serde.",
+               "struct and sequence forms, Wrapping<F> serde; each of the 506 type aliases names the layout it spells (signedness, width = "
+               "size_of, FRAC_NBITS / INT_NBITS; the name is parsed in TLA+).",
     }
     return dict(
         bins=["conv", "convsweep"], profiles=["unchecked"], gens=gens, designs=[],
